@@ -667,6 +667,31 @@ fn chk_hdr_in_archive(asy: bool, coords: [f64; 6]) -> Result<(), String> {
             return Err(format!("coordinate #{k} stored as {} is handed back as {:e} on opening, it decodes to {want:e}", sh.coords[k], back[k]));
         }
     }
+    // the opened archive gets each coordinate moved by 0.6e-7 degrees (to the next multiple of 1e-7 or not, depending
+    // on where it was) and is saved: the header is the one `Header` writes for the edited values; an archive whose tile
+    // type is Unknown and whose first tile looks like an image keeps its tile type
+    if !asy {
+        for (tt, first) in [(pmtiles2::TileType::Unknown, &b"\x89PNG\r\n\x1a\n0000"[..]), (pmtiles2::TileType::Unknown, &b"\xff\xd8\xff\xe0JFIF"[..]), (pmtiles2::TileType::Mvt, &b"RIFF0000WEBPVP8 "[..])] {
+            let mut p = pmtiles2::PMTiles::from_bytes(&bytes[..]).map_err(|e| format!("open: {e}"))?;
+            p.tile_type = tt;
+            p.add_tile(0, first.to_vec()).map_err(|e| e.to_string())?;
+            let edited: Vec<f64> = back.iter().enumerate().map(|(k, v)| v + if k % 2 == 0 { 0.6e-7 } else { -0.6e-7 }).collect();
+            (p.min_longitude, p.min_latitude, p.max_longitude, p.max_latitude, p.center_longitude, p.center_latitude) = (edited[0], edited[1], edited[2], edited[3], edited[4], edited[5]);
+            let mut out = std::io::Cursor::new(Vec::new());
+            p.to_writer(&mut out).map_err(|e| format!("to_writer after editing: {e}"))?;
+            let out = out.into_inner();
+            let mut hh = pmtiles2::Header::default();
+            (hh.min_pos.longitude, hh.min_pos.latitude, hh.max_pos.longitude, hh.max_pos.latitude, hh.center_pos.longitude, hh.center_pos.latitude) = (edited[0], edited[1], edited[2], edited[3], edited[4], edited[5]);
+            let hb2 = header_enc(false, &hh).map_err(|e| format!("encode failed: {e}"))?;
+            if out[102..127] != hb2[102..127] {
+                return Err(format!("an opened archive whose coordinates were moved by 0.6e-7 degrees to {edited:?} is saved with other stored coordinates than a header given those values"));
+            }
+            let want_tt = spec::encode_header(&spec::SHeader { ttype: match tt { pmtiles2::TileType::Unknown => 0, _ => 1 }, ..spec::decode_header(&out[..127]).map_err(|e| e.to_string())? })[99];
+            if out[99] != want_tt {
+                return Err(format!("an archive with tile type {tt:?} is saved with tile-type byte {} (its first tile begins like an image file)", out[99]));
+            }
+        }
+    }
     Ok(())
 }
 pub fn gen_c09(rng: &mut Rng, quick: bool, st: &mut Stats) -> Vec<String> {
